@@ -11,7 +11,9 @@ import time
 VERIF = os.path.dirname(os.path.dirname(os.path.abspath(__file__)))
 SPECS = os.path.join(VERIF, "specs")
 HARNESS = os.path.join(VERIF, "harness")
-XV = os.path.join(HARNESS, "target", "debug", "xv")
+# XV_BIN: a pre-built harness binary (only for development measurements such as bin/coverage.sh; the checks registered
+# in MANIFEST.json never set it and always rebuild from /repo's working tree)
+XV = os.environ.get("XV_BIN") or os.path.join(HARNESS, "target", "debug", "xv")
 WORK = os.path.join(VERIF, "work")
 EVID = os.path.join(VERIF, "evidence")
 REPLAYS = os.path.join(EVID, "replays")
@@ -56,7 +58,7 @@ _built = False
 def build_harness():
     """cargo build of the harness against /repo's current working tree, hooks on."""
     global _built
-    if _built:
+    if _built or os.environ.get("XV_BIN"):
         return
     lock = os.path.join(HARNESS, "Cargo.lock")
     if not os.path.exists(lock):
